@@ -15,7 +15,7 @@ pub const RULE: &str = "generated formats of 1-16 non-optional tokens from {%Y %
 pub const ASSUMPTIONS: &[&str] = &[
     "weekday and day of year are those of the printed Gregorian date (the epoch's own time scale, after the offset shift)",
     "ISO8601 (non-optional %f) prints nine fraction digits even when zero, so it equals Display exactly when the fraction is non-zero and Display with '.000000000' inserted otherwise (the two clauses of the statement can only both hold under this reading)",
-    "parse-back is asserted for formats that contain year, month (number or name), day, hour, minute, second (and %f, or the epoch has no fraction), no %z and no %j, with 1-2 non-alphanumeric separators (not + - .) after every token but the last and %T only in last position",
+    "parse-back is asserted for formats that contain year, month (number or name), day, hour, minute, second (and %f, or the epoch has no fraction), no %z, the date given either as month and day or as %j day of year (not both), with 1-2 non-alphanumeric separators (not + - .) after every token but the last and %T only in last position",
     "not asserted: %y %J %w (documented tokens outside the statement's list)",
 ];
 
@@ -271,6 +271,24 @@ pub struct Back {
     pub g: i128,
 }
 
+/// the ordinal family: year + day of year instead of month and day
+fn back_ordinal_strategy() -> BS<Back> {
+    (Just(vec![0usize, 7, 3, 4, 5]).prop_shuffle(), any::<bool>(), any::<bool>(), prop::collection::vec(sep_strategy(true), 10), ns1900_0001_9999())
+        .prop_map(|(mut order, with_f, with_t, seps, g)| {
+            if with_f {
+                let i = order.iter().position(|t| *t == 5).unwrap();
+                order.insert(i + 1, 6);
+            }
+            if with_t {
+                order.push(12);
+            }
+            let g = if with_f { g } else { g - g.rem_euclid(NS_S) };
+            let items = order.into_iter().enumerate().map(|(i, t)| (t, seps[i % seps.len()].clone())).collect();
+            Back { items, g }
+        })
+        .boxed()
+}
+
 fn back_strategy() -> BS<Back> {
     // a permutation of the six mandatory fields (month as number or name), optional %f, %A/%a, %T last
     let month = prop::sample::select(vec![1usize, 10, 11]); // m, B, b
@@ -329,6 +347,7 @@ pub fn subs() -> Vec<Box<dyn DynSub>> {
         sub(Sub { name: "c19.format", source: Source::Gen(fmt_strategy, 1_200_000, 15_000_000), oracle: fmt_oracle, known: no_known, hang_is_violation: false }),
         sub(Sub { name: "c19.to_time_scale", source: Source::Gen(tots_strategy, 240_000, 2_000_000), oracle: tots_oracle, known: no_known, hang_is_violation: false }),
         sub(Sub { name: "c19.constants", source: Source::Gen(const_strategy, 600_000, 5_000_000), oracle: const_oracle, known: no_known, hang_is_violation: false }),
+        sub(Sub { name: "c19.parse_back_ordinal", source: Source::Gen(back_ordinal_strategy, 200_000, 3_000_000), oracle: back_oracle, known: no_known, hang_is_violation: false }),
         sub(Sub { name: "c19.parse_back", source: Source::Gen(back_strategy, 600_000, 5_000_000), oracle: back_oracle, known: no_known, hang_is_violation: false }),
         crate::props::fuzzsub::c19_fuzz(),
     ]
